@@ -77,6 +77,16 @@ fn graft_detour(rng: &mut Rng, f: &mut Facts, len: usize) {
 }
 
 pub fn c11(rng: &mut Rng, _tier: &str, idx: usize) -> Case {
+    if idx == 3 {
+        // more than 65 535 terms (implementation against the harness oracle only): lookups, links,
+        // distances, set operations, common ancestors, sub-ontology and comparison on terms in arena
+        // slots beyond 65 535
+        let mut c = Case::new("big-arena");
+        c.op(format!("bigarena 70000 {}", rng.next()));
+        c.stat("big_arena_terms", 70000);
+        c.nontrivial = true;
+        return c;
+    }
     if idx == 2 {
         // a single-parent chain far deeper than any shipped ontology (distances beyond 255 and
         // beyond the 30-entry inline group size), queried for selected pairs only
@@ -187,11 +197,49 @@ pub fn c11(rng: &mut Rng, _tier: &str, idx: usize) -> Case {
 // ---------------------------------------------------------------- C14
 
 pub fn c14(rng: &mut Rng, _tier: &str, idx: usize) -> Case {
+    if idx == 3 {
+        // more than 65 535 terms (implementation against the harness oracle only): lookups, links,
+        // distances, set operations, common ancestors, sub-ontology and comparison on terms in arena
+        // slots beyond 65 535
+        let mut c = Case::new("big-arena");
+        c.op(format!("bigarena 70000 {}", rng.next()));
+        c.stat("big_arena_terms", 70000);
+        c.nontrivial = true;
+        return c;
+    }
     if idx % 6 == 4 {
         // a random DAG on 5 nodes with EVERY root and EVERY leaf set below it (several leaves,
         // cuts above retained terms)
         let mut c = crate::props::small_dag_case("C14", 5, rng.below(1024) as usize, rng.below(120) as usize);
         c.tag = "five-nodes-all-queries".to_string();
+        return c;
+    }
+    if idx % 60 == 7 {
+        // a retained term with 9..13 / 31..33 RETAINED direct parents: all the middle terms of a
+        // fan and the term below them are leaves (every chain is unique, so the result is compared
+        // exactly)
+        let mut c = Case::new("sub-fan");
+        let p = *rng.pick(&[9usize, 10, 11, 12, 13, 31, 33]);
+        let f = gen_fan(rng, p);
+        facts_to_prog(rng, &f, &ProgOpts { shuffle: true, failing_permille: 0, build_defaults: true, slot: 0 }, &mut c);
+        facts_stats(&f, &mut c);
+        c.op("dump 0".to_string());
+        // f.terms: 1, 118, the p middle terms, the two low terms
+        let mids: Vec<u32> = f.terms[2..2 + p].iter().map(|t| t.0).collect();
+        let low0 = f.terms[2 + p].0;
+        let mut leaves = mids.clone();
+        leaves.push(low0);
+        rng.shuffle(&mut leaves);
+        let ls = crate::proto::ids(leaves.iter().copied());
+        c.op(format!("sub 0 1 118 {ls}"));
+        c.op(format!("oracle sub 0 118 {ls}"));
+        c.op("dump 1".to_string());
+        c.op("oracle closure 1".to_string());
+        c.op("oracle inherit 1".to_string());
+        c.op("oracle ic 1".to_string());
+        c.stat(&format!("fan_{p}"), 1);
+        c.stat("sub_ontology_calls", 1);
+        c.nontrivial = true;
         return c;
     }
     let mut c = Case::new("sub");
